@@ -125,6 +125,8 @@ def apply_plan(full, info, plan, conc):
     eles = n['eles']
     kind = plan['kind']
     ei, ci = plan['ele'], plan['sub']
+    if sid == 'BHT' and ei == 2 and conc.entry and conc.entry['vriic'] in ('004010X094', '004010X094A1'):
+        return None               # BHT02 of these guides selects the map itself (Driver.tla): not an ordinary element fault
     alt = []
     value = ''
     at = si          # index of the segment that carries the fault in the new document
@@ -294,8 +296,8 @@ def apply_plan(full, info, plan, conc):
                 k2 += 1
             k = k2
         extra = r + 1 - have
-        if extra <= 0 or any(x[1] in ('HL', 'LX') for x in inst):
-            return None           # renumbering hierarchical levels / service lines would add further faults
+        if extra <= 0 or any(x[1] in ('HL', 'LX', 'LS', 'LE') for x in inst) or (si > 0 and info[si - 1][1] == 'LS'):
+            return None           # renumbering hierarchical levels / service lines, or re-bracketing LS/LE, would add further faults
         pos_ins = k
         for t in range(extra):
             for x in inst:
